@@ -2047,20 +2047,20 @@ Proof. unfold msg_flags. destruct (m_trunc x); reflexivity. Qed.
 Lemma chunk_cbs_b fx rbeh b nb : forall ms k s ch,
   no_stop_in_chunk_cb rbeh -> recving s = true ->
   let r := chunk_cbs fx rbeh s b k ms in
-  exists ch', bmon_run (Some (b, ch, false), nb) (snd r) = Some (Some (b, ch', false), nb) /\
-    (ms <> [] -> ch' = true) /\ recving (fst r) = true /\ next_buf (fst r) = next_buf s.
+  bmon_run (Some (b, ch, false), nb) (snd r) =
+    Some (Some (b, match ms with [] => ch | _ :: _ => true end, false), nb) /\
+  recving (fst r) = true /\ next_buf (fst r) = next_buf s.
 Proof.
   induction ms as [|x ms IH]; intros k s ch Hn Hr; cbn [chunk_cbs].
-  - exists ch. simpl. repeat split; auto. congruence.
+  - simpl. auto.
   - rewrite Hr.
     pose proof (recv_cb_chunk fx rbeh s b k ch nb (m_len x) (Some (m_id x))
                   (UV_UDP_MMSG_CHUNK + msg_flags x) Hn Hr (chunk_flag x)) as (A1 & A2 & A3).
     destruct (recv_cb fx rbeh s b (Chunk k) (m_len x) (Some (m_id x)) (UV_UDP_MMSG_CHUNK + msg_flags x))
       as [s1 e1].
-    destruct (IH (S k) s1 true Hn A2) as (ch' & B1 & B2 & B3 & B4).
-    destruct (chunk_cbs fx rbeh s1 b (S k) ms) as [s2 e2]. simpl in *.
-    assert (ch' = true). { destruct ms; [simpl in B1; inversion B1; reflexivity|apply B2; discriminate]. }
-    subst ch'. exists true. rewrite bmon_run_app, A1. repeat split; auto. congruence.
+    destruct (IH (S k) s1 true Hn A2) as (B1 & B3 & B4).
+    destruct (chunk_cbs fx rbeh s1 b (S k) ms) as [s2 e2]. cbn [fst snd] in *.
+    rewrite bmon_run_app, A1, B1. split; [destruct ms; reflexivity|]. split; auto. congruence.
 Qed.
 
 Lemma recv_retry_bquiet mk : (forall a, bquiet (mk a) = true) ->
@@ -2085,16 +2085,16 @@ Proof.
   set (chunks := if Z.of_nat BATCH <? len / DGRAM_MAXSIZE then Z.of_nat BATCH else len / DGRAM_MAXSIZE).
   destruct (recv_retry (fun a => ERSys true chunks (rclamp (Z.to_nat chunks) a)) (orv s))
     as [[a0 ev] o'] eqn:E.
-  pose proof (recv_retry_bquiet _ (fun a => eq_refl) _ _ _ _ E) as Hq.
+  pose proof (recv_retry_bquiet (fun a => ERSys true chunks (rclamp (Z.to_nat chunks) a))
+                (fun a => eq_refl) _ _ _ _ E) as Hq.
   destruct (rclamp (Z.to_nat chunks) a0) as [[|x ms]|e].
   - pose proof (recv_cb_whole fx rbeh (set_orv o' (allocs s) s) b false nb 0 None 0 eq_refl) as (A1 & A2).
     destruct (recv_cb fx rbeh (set_orv o' (allocs s) s) b Whole 0 None 0) as [s2 e2].
     simpl in *. rewrite bmon_run_app, (bmon_quiet _ _ Hq). auto.
   - destruct (chunk_cbs_b fx rbeh b nb (x :: ms) 0 (set_orv o' (allocs s) s) false Hn Hr)
-      as (ch' & B1 & B2 & B3 & B4).
+      as (B1 & B3 & B4).
     destruct (chunk_cbs fx rbeh (set_orv o' (allocs s) s) b 0 (x :: ms)) as [s2 e2].
-    simpl in B1, B3, B4. rewrite B3.
-    assert (ch' = true) by (apply B2; discriminate). subst ch'.
+    cbn [fst snd] in B1, B3, B4. rewrite B3.
     pose proof (recv_cb_whole fx rbeh s2 b true nb 0 None UV_UDP_MMSG_FREE eq_refl) as (A1 & A2).
     destruct (recv_cb fx rbeh s2 b Whole 0 None UV_UDP_MMSG_FREE) as [s3 e3].
     simpl in *. rewrite bmon_run_app, (bmon_quiet _ _ Hq), bmon_run_app, B1. split; [exact A1|congruence].
@@ -2118,7 +2118,7 @@ Proof.
     destruct (udp_recvmmsg fx rbeh s b len) as [[s1 e1] nr]. simpl in H.
     intros Heq. inversion Heq; subst. exact H.
   - destruct (recv_retry (fun a => ERSys false 1 (rclamp 1 a)) (orv s)) as [[a0 e0] o'] eqn:E.
-    pose proof (recv_retry_bquiet _ (fun a => eq_refl) _ _ _ _ E) as Hq.
+    pose proof (recv_retry_bquiet (fun a => ERSys false 1 (rclamp 1 a)) (fun a => eq_refl) _ _ _ _ E) as Hq.
     destruct (rclamp 1 a0) as [[|x ms]|e].
     + pose proof (recv_cb_whole fx rbeh (set_orv o' (allocs s) s) b false nb 0 None 0 eq_refl) as (A1 & A2).
       destruct (recv_cb fx rbeh (set_orv o' (allocs s) s) b Whole 0 None 0) as [s3 e3].
